@@ -37,10 +37,9 @@ ASSUMPTIONS = ['the float hash of WL (sum of (-pi/3.15)^colour, epsilon 1e-10) i
                'deterministic configurations only (no shuffling, fixed budgets); Propagation (index order dependent) is excluded',
                'PageRank(solver=push) is in the table and fails the relation (worklist order; known finding F-C02-push-order); the '
                'iterative solvers bicgstab / lanczos are compared like the others (5e-6): get_pagerank now tests the true residual',
-               'core numbers, triangles, Betweenness, Closeness are run on directed graphs too; count_cliques and the clustering '
-               'coefficient only on undirected graphs (count_cliques orients edges by core order without symmetrising: on a '
-               'digraph its value depends on the numbering; C11 scopes it to undirected graphs), Dasgupta cost / TSD on the '
-               'undirected graphs Paris accepts',
+               'core numbers, triangles, clique counts, the clustering coefficient, Betweenness, Closeness are run on directed graphs '
+               'too (count_cliques symmetrises since /repo c45a6484: before, its value on a digraph depended on the numbering); '
+               'Dasgupta cost / TSD on the undirected graphs Paris accepts',
                'a numbering on which both calls raise the same exception class is counted (relation-exc:<entry>) and is not an '
                'evaluation of the relation; an entry without any non-trivial evaluation in a run is a tool failure']
 
@@ -414,9 +413,9 @@ def _algos():
     A['DiffusionClassifier(labels)'] = ('vec', _dc_labels, 0, 'any')
     A['PageRankClassifier(probs)'] = ('rows', lambda a, x: PageRankClassifier().fit(a, labels=x['labels']).probs_.toarray(), 1e-7, 'any')
     A['triangles'] = ('inv', lambda a, x: count_triangles(a), 0, 'any')
-    A['cliques3'] = ('inv', lambda a, x: count_cliques(a, 3), 0, 'undirected')
-    A['cliques4'] = ('inv', lambda a, x: count_cliques(a, 4), 0, 'undirected')
-    A['cliques5'] = ('inv', lambda a, x: count_cliques(a, 5), 0, 'undirected')
+    A['cliques3'] = ('inv', lambda a, x: count_cliques(a, 3), 0, 'any')
+    A['cliques4'] = ('inv', lambda a, x: count_cliques(a, 4), 0, 'any')
+    A['cliques5'] = ('inv', lambda a, x: count_cliques(a, 5), 0, 'any')
     A['clustering_coefficient'] = ('inv', lambda a, x: get_clustering_coefficient(a), 1e-12, 'any')
     A['modularity'] = ('inv', lambda a, x: get_modularity(a, x['partition']), 1e-12, 'any')
     A['modularity(res=2,uniform)'] = ('inv', lambda a, x: get_modularity(a, x['partition'], weights='uniform', resolution=2), 1e-12, 'any')
